@@ -496,6 +496,20 @@ def gc_setup(eng):
     eng.loader.call_hooks['singlecellmultiomics.bamProcessing.bamBinCounts.generate_jobs'] = \
         lambda e, f, a, k, n: list(jobs[k.get('alignments_path', a[0] if a else None)])
 
+    # a job's interval may hold no alignment at all and still own sites (the site of a read lies up to a fragment away from it)
+    def bam(e, a, k, n):
+        o = Obj('JobBam', {})
+        o.vc_immutable = True
+        return o
+
+    def count(e, o, *a, **k):
+        c = fresh(INT, 'alignments_in_the_interval')
+        e.assume(c.z >= 0)
+        return c
+    stubs.STUBS['JobBam'] = {'methods': {'__enter__': lambda e, o: o, '__exit__': lambda e, o, *a: None, 'count': count,
+                                         'close': lambda e, o: None, 'fetch': lambda e, o, *a, **k: []}, 'props': {}, 'setters': {}}
+    externals.EXTRA['pysam.AlignmentFile'] = bam
+
 
 UNPACK = ('(lambda c: {"alignments_path": c[0], "bin_size": c[1], "max_fragment_size": c[2], "contig": c[3], "start": c[4], '
           '"end": c[5], "min_mq": c[6], "alt_spans": c[7], "key_tags": c[8], "dedup": c[9], "kwargs": c[10]})')
